@@ -351,7 +351,7 @@ def timer_search(repo, prop, tier, seed=1):
     fcntl.flock(lockf, fcntl.LOCK_EX)
     try:
         count = 300000 if tier == "thorough" else 20000
-        res = {"what": "bounded replay of C05 on the real `des` crate: %d seeded random scenarios of 1..2 modules x 1..3 tasks, each task a program of 1..5 timer operations (sleep, sleep_until incl. elapsed deadlines, timeout around a sleep and around a never-ready future, a sleep polled once and dropped, a pinned sleep that is reset, interval with Burst / Delay / Skip and late ticks, timeout_at, interval_at incl. a start in the past, Interval::reset, a sub-task aborted while it sleeps); all durations are multiples of 10 ms in 0..50 ms so timers share deadlines, except for intervals with periods of 2.5 / 7.3 / 10.4 ms and one tick that is late by 5.3..13 ms (sub-millisecond arithmetic of the missed-tick behaviours). Every completion is logged with SimTime::now() and compared with the deadline the property prescribes; results of timeout (Ok iff inner <= deadline) and the values returned by Interval::tick are compared too; 0..3 self-messages per module (activations that are not timer wake-ups) and debounce tasks whose sleep every message resets; the run must return Ok with every task finished and must not end before the last deadline" % count,
+        res = {"what": "bounded replay of C05 on the real `des` crate: %d seeded random scenarios of 1..2 modules x 1..3 tasks, each task a program of 1..5 timer operations (sleep, sleep_until incl. elapsed deadlines, timeout around a sleep and around a never-ready future, a sleep polled once and dropped, a pinned sleep that is reset, interval with Burst / Delay / Skip and late ticks, timeout_at, interval_at incl. a start in the past, Interval::reset, a sub-task aborted while it sleeps, timeouts and sleeps with durations that are not representable as a deadline (u64::MAX seconds, Duration::MAX)); all durations are multiples of 10 ms in 0..50 ms so timers share deadlines, except for intervals with periods of 2.5 / 7.3 / 10.4 ms and one tick that is late by 5.3..13 ms (sub-millisecond arithmetic of the missed-tick behaviours). Every completion is logged with SimTime::now() and compared with the deadline the property prescribes; results of timeout (Ok iff inner <= deadline) and the values returned by Interval::tick are compared too; 0..3 self-messages per module (activations that are not timer wake-ups) and debounce tasks whose sleep every message resets; the run must return Ok with every task finished and must not end before the last deadline" % count,
                "bound": "%d random scenarios; seed %d" % (count, seed), "labelled": "bounded", "counts_as_proof": False}
         exe, err = _build_rt(repo, "timer_driver")
         if exe is None:
